@@ -190,7 +190,7 @@ def collector(res, prop, max_samples=2):
                 mv = {}
             res.samples.append({
                 "status": pr.status if pr.status == "ok" else f"exception {type(pr.exc).__name__}",
-                "decisions": [(d[0], d[2] if d[0] == "b" else d[2][d[3]]) for d in pr.decisions][:40],
+                "decisions": [(d[0], d[2] if d[0] in ("b", "p") else d[2][d[3]]) for d in pr.decisions][:40],
                 "path_condition (solver-decided branch conditions, first 12)": [str(e).replace("\n", " ")[:160] for e in c.pc_decisions[:12]],
                 "one_model_of_the_path_condition": {k: v for k, v in list(mv.items())[:24]},
                 "trace": [list(map(str, t)) for t in pr.trace[:24]],
